@@ -19,3 +19,13 @@ import AvoVerif.Props.C01Pipeline
 #print axioms Avo.Pipeline.liveness_postfix
 #print axioms Avo.Pipeline.pipeline_preserves
 #print axioms Avo.Pipeline.mkLProg_wf
+#print axioms Avo.AllocCheck.accepted_preserves_from_entry
+#print axioms Avo.AllocCheck.checkRegsAt_sound
+#print axioms Avo.Alloc.allocLoop_fuel_irrelevant
+#print axioms Avo.Alloc.allocLoop_fuel_sufficient
+#print axioms Avo.Pipeline.locsOf_bound
+#print axioms Avo.Pipeline.locsOf_bindReg
+#print axioms Avo.Pipeline.bound_prog_is_renamed
+#print axioms Avo.Pipeline.compiled_preserves
+#print axioms Avo.Pipeline.compiled_preserves_from_entry
+#print axioms Avo.Alloc.checkBind_sound
